@@ -16,7 +16,7 @@ Import ListNotations.
 Require Import Fggs.Model.GraphAPI.
 Require Import Fggs.Proofs.GraphAPI_wf Fggs.Proofs.GraphAPI_inv Fggs.Proofs.GraphAPI_oracle
         Fggs.Proofs.GraphAPI_atomic Fggs.Proofs.GraphAPI_frame Fggs.Proofs.GraphAPI_eq
-        Fggs.Proofs.GraphAPI_copy Fggs.Proofs.GraphAPI_refuted Fggs.Proofs.GraphAPI_examples.
+        Fggs.Proofs.GraphAPI_copy Fggs.Proofs.GraphAPI_copyobs Fggs.Proofs.GraphAPI_refuted Fggs.Proofs.GraphAPI_examples.
 
 (** * (A) C16_inv *)
 Theorem C16_inv_init : inv init.
@@ -159,6 +159,14 @@ Theorem C16_copy_independent :
                nth_error (objs (run s' ops)) k = nth_error (objs s') k).
 Proof. exact copy_independent. Qed.
 Print Assumptions C16_copy_independent.
+
+(** a copied Graph / FactorGraph SHOWS exactly what its original shows (every accessor,
+    including domains and factor weights) when the label tables survive the copy -- the guard
+    that excludes F13 *)
+Theorem C16_copy_observe_graph :
+  forall g c, graph_ok g -> g_copy g = inl c -> copy_tables_kept g c -> obs_obj (OG c) = obs_obj (OG g).
+Proof. exact g_copy_observe. Qed.
+Print Assumptions C16_copy_observe_graph.
 
 (** F13: the copy does not show the label tables of its original *)
 Theorem C16_copy_refuted :
